@@ -245,6 +245,8 @@ def run(ck):
     for k in ('builtins_unobservable', 'builtin_differences'):
         ck.extra[k] = collections.Counter()
     BB.run_stream(ck, b, openk)
+    # 5. histories on stateful containers (HashMap with colliding keys, dynamic arrays, List<int>): compile time vs the same binary
+    BB.run_histories(ck, b)
     for k in ('builtins_unobservable', 'builtin_differences'):
         ck.extra[k] = dict(ck.extra[k])
     if cases:
